@@ -182,7 +182,7 @@ def check_c07(ctx):
                     "cold": g % 2 == 1})
     logs = os.path.join(ctx.work, "race")
     os.makedirs(logs, exist_ok=True)
-    events, stderr = core.vh_sharded(ctx, "conc", scn, timeout=3000, race=True, shards=groups,
+    events, stderr = core.vh_sharded(ctx, "conc", scn, timeout=3000, race=True, shards=groups, resilient=True,
                                      env={"GORACE": "halt_on_error=0 exitcode=0 log_path=%s/race" % logs})
     races = []
     for fn in os.listdir(logs):
@@ -201,6 +201,8 @@ def check_c07(ctx):
             sig = "C07/Crash:" + str(p["what"])
             if p["what"] == "hang" and ev0:
                 sig = "C07/Hang/" + str(ev0[0].get("site"))
+            if p["what"] == "fatal" and ev0:
+                sig = "C07/Crash:fatal/" + str(ev0[0].get("site"))
             what = "group %d: %s" % (p["t"], ev0)
         else:
             continue
